@@ -97,6 +97,13 @@ Theorem C50_nfa_to_dfa_terminates : forall m,
 Proof. exact nfa_to_dfa_total. Qed.
 Print Assumptions C50_nfa_to_dfa_terminates.
 
+(* the same with the executable checks evaluated on every generated lexicon in the run *)
+Theorem C50_nfa_to_dfa_terminates_checked : forall m fuel,
+  nfa_ok m = true -> nfa_bounded m = true ->
+  (N.to_nat (2 ^ N.of_nat (length m)) < fuel)%nat -> exists D, nfa_to_dfa fuel m = Some D.
+Proof. exact nfa_to_dfa_total_b. Qed.
+Print Assumptions C50_nfa_to_dfa_terminates_checked.
+
 (* ---- (3) the scanner loop ---- *)
 Theorem C50_scanner_longest_match : forall D text cfg,
   dfa_wf (dfa_acts D) (dfa_trans D) -> 0 <= c_next cfg ->
